@@ -1798,3 +1798,10 @@ def _tile(ctx, eqn, a):
                 sub.append(zint(i) % zint(d))
         return a.at(tuple(sub))
     return [SArr(shp, a.kind, fn, a.dtype)]
+
+
+@rule("empty")
+def _empty(ctx, eqn):
+    # jnp.empty: arbitrary (unspecified) contents
+    shp = out_shape(ctx, eqn)
+    return [fresh_input(ctx.fresh("empty"), shp, out_kind(eqn), eqn.outvars[0].aval.dtype)]
